@@ -2,6 +2,7 @@ package pmlib
 
 import (
 	"fmt"
+	"sort"
 	"strings"
 
 	"github.com/bluenviron/mediamtx/internal/conf"
@@ -15,13 +16,14 @@ var Live *PM
 
 // PubSpec scripts one publisher task: attach, write N units, detach.
 type PubSpec struct {
-	ID     string
-	Writes int
-	Stay   bool // do not detach by itself
-	Pre    bool // attach in the main task before the concurrent phase starts
-	Linger bool // before detaching, wait until nothing else can run (lets the readers attach first)
-	Incompatible bool // publishes tracks the (always-available) path refuses
-	QuietBeforeLast bool // before its last write, wait until nothing else can run (other publishers' attempts have completed)
+	ID               string
+	Writes           int
+	Stay             bool // do not detach by itself
+	Pre              bool // attach in the main task before the concurrent phase starts
+	Linger           bool // before detaching, wait until nothing else can run (lets the readers attach first)
+	Incompatible     bool // publishes tracks the (always-available) path refuses
+	RemoveWhenClosed bool // like a real session: once the path has closed it (replacement), it still sends its RemovePublisher
+	QuietBeforeLast  bool // before its last write, wait until nothing else can run (other publishers' attempts have completed)
 }
 
 // RdrSpec scripts one reader task: attach (Twice: call AddReader twice), wait to be closed or detach.
@@ -49,9 +51,15 @@ func PubReadBodyOpt(c *conf.Conf, pubs []PubSpec, rdrs []RdrSpec, hooks bool, au
 		var pdone, rdone []chan struct{}
 		preRes := map[string]*defs.PathAddPublisherRes{}
 		prePub := map[string]*Pub{}
+		pubClosed := map[string]chan struct{}{}
 		for _, ps := range pubs {
 			if ps.Pre {
 				prePub[ps.ID] = &Pub{ID: ps.ID}
+				if ps.RemoveWhenClosed {
+					ch := make(chan struct{})
+					pubClosed[ps.ID] = ch
+					prePub[ps.ID].OnClose = func() { vsched.Close(ch) }
+				}
 				preRes[ps.ID], _ = pm.Publish(prePub[ps.ID], "p", desc)
 			}
 		}
@@ -85,6 +93,11 @@ func PubReadBodyOpt(c *conf.Conf, pubs []PubSpec, rdrs []RdrSpec, hooks bool, au
 				res := preRes[ps.ID]
 				if !ps.Pre {
 					pub = &Pub{ID: ps.ID}
+					if ps.RemoveWhenClosed {
+						ch := make(chan struct{})
+						pubClosed[ps.ID] = ch
+						pub.OnClose = func() { vsched.Close(ch) }
+					}
 					var err error
 					d := desc
 					if ps.Incompatible {
@@ -107,6 +120,13 @@ func PubReadBodyOpt(c *conf.Conf, pubs []PubSpec, rdrs []RdrSpec, hooks bool, au
 				}
 				if ps.Linger {
 					vsched.WaitQuiet()
+				}
+				if ps.RemoveWhenClosed {
+					vsched.Recv(pubClosed[ps.ID])
+					vsched.Log("stale-removing %s", ps.ID)
+					res.Path.RemovePublisher(defs.PathRemovePublisherReq{Author: pub})
+					vsched.Log("stale-removed %s", ps.ID)
+					return
 				}
 				if !ps.Stay {
 					vsched.Log("removing %s", ps.ID)
@@ -285,10 +305,24 @@ func CheckPublishersOpt(override bool, sameStream bool) func(o *vsched.Outcome) 
 					closedAt[w[1]] = i
 				}
 				if cur == w[1] {
-					if !override && idx(o.Trace[:i], "settled", 0) < 0 && !strings.HasPrefix(o.Trace[0], "settled") && !settledBefore(o.Trace, i) {
+					if !override && idx(o.Trace[:i], "settled", 0) < 0 && !strings.HasPrefix(o.Trace[0], "settled") && !settledBefore(o.Trace, i) && idx(o.Trace[:i], "reloading", 0) < 0 {
 						return "kicked-without-override", fmt.Sprintf("publisher %s was closed by the path while attached although overridePublisher is off | %s", cur, tr)
 					}
 					cur = "" // kicked by the path
+				}
+			case "settled":
+				// at quiescence the path's source is exactly the publisher that is attached and has neither been
+				// closed by the path nor asked to be removed
+				if j := strings.Index(l, "{src="); j >= 0 {
+					src := strings.Fields(l[j+5:])[0]
+					if cur != "" && src != cur {
+						return "attached-publisher-detached", fmt.Sprintf("publisher %s is attached (never closed by the path, never removed) but the path's source at quiescence is %q | %s", cur, src, tr)
+					}
+					if cur == "" && src != "" && src != "static" && src != "redirect" {
+						if _, rem := replacedAt[src]; rem {
+							return "removed-publisher-still-source", fmt.Sprintf("publisher %s was removed but is still the path's source at quiescence | %s", src, tr)
+						}
+					}
 				}
 			case "reading":
 				readingAt[w[1]] = i
@@ -371,6 +405,7 @@ func keys(m map[string]bool) []string {
 	for k := range m {
 		out = append(out, k)
 	}
+	sort.Strings(out)
 	return out
 }
 
